@@ -38,6 +38,21 @@ namespace TAO_PEGTL_NAMESPACE::internal
       }
    };
 
+   // The second input starts where Head started; with lazy tracking the iterator is a plain
+   // pointer, so the position of that point has to be handed over explicitly.
+   template< typename ParseInput >
+   [[nodiscard]] inputerator rematch_begin( const ParseInput& in, const char* it )
+   {
+      const auto p = in.position( it );
+      return inputerator( it, p.byte, p.line, p.column );
+   }
+
+   template< typename ParseInput >
+   [[nodiscard]] const inputerator& rematch_begin( const ParseInput& /*unused*/, const inputerator& it ) noexcept
+   {
+      return it;
+   }
+
    template< typename Head, typename Rule, typename... Rules >
    struct rematch< Head, Rule, Rules... >
    {
@@ -57,7 +72,8 @@ namespace TAO_PEGTL_NAMESPACE::internal
          auto m = in.template auto_rewind< rewind_mode::required >();
 
          if( Control< Head >::template match< A, rewind_mode::optional, Action, Control >( in, st... ) ) {
-            memory_input< ParseInput::tracking_mode_v, typename ParseInput::eol_t, typename ParseInput::source_t > i2( m.inputerator(), in.current(), in.source() );
+            using input_t = memory_input< ParseInput::tracking_mode_v, typename ParseInput::eol_t, typename ParseInput::source_t >;
+            input_t i2( rematch_begin( in, m.inputerator() ), in.current(), in.source() );
             return m( ( Control< Rule >::template match< A, rewind_mode::optional, Action, Control >( i2, st... ) && ... && ( i2.restart( m ), Control< Rules >::template match< A, rewind_mode::optional, Action, Control >( i2, st... ) ) ) );
          }
          return false;
